@@ -489,7 +489,9 @@ def c05(run):
     run.assumptions += SYNTAX_ASSUME
     quick = run.tier == "quick"
     run.add_model(tlc_check("MCSyntax.tla", "Syntax_layout_small.cfg", workers=4, coverage=False))
-    recs, res = syntax_corpus(run, ["features", "styles", "files"], simulate={"num": 100 if quick else 2000, "depth": 40})
+    # the layout scenario (every account width x number length) is part of C05 too: at the boundary widths a formatter
+    # that drops below two separating spaces changes what the text means
+    recs, res = syntax_corpus(run, ["features", "styles", "files", "layout"], simulate={"num": 100 if quick else 2000, "depth": 40})
     run.exhaustive = True
 
 
